@@ -29,8 +29,8 @@ claim("C05",
       "Bounded model checking of the encoder's emission kernels against RFC 1951/1950: the bit writer packs every sequence of up to 4 emissions from every valid register state exactly as RFC 1951 3.1.1 prescribes; every literal, every (length, distance) pair and every block header is emitted with the RFC fixed code / extra bits (all 256 x 32768 pairs, decided symbolically); static tables equal the RFC tables; dynamic trees at reduced alphabets: gen_codes assigns a canonical prefix-free code to every complete length set (5 symbols <= 4 bits; 8 symbols <= 7 bits), build_tree on the bit-length alphabet yields a complete code within the length limit whose lengths follow the frequencies and whose cost equals opt_len (2..=4 used symbols, any frequencies; the forced second code), send_tree's run-length coding of the lengths is read back by an RFC 1951 3.2.7 reference decoder and scan_tree predicts exactly the symbols sent (4, 5, 7 symbolic lengths; an 11-zero run); zlib header/trailer; stored blocks (level 0) parsed back by a reference parser. The solver ranges over all values inside each harness's bounds, which sampling cannot.",
       'Outside the claim: that match finders (longest_match, medium/slow) never propose a distance beyond max_dist; full-size dynamic trees and the length-limit overflow repair of gen_bitlen (not reachable at the reduced sizes); compress_block over a whole symbol buffer; whole-stream composition beyond the kernels listed in the evidence.')
 claim("C01",
-      "Compositional, bounded: (a) level 0 end to end: one deflate_stored call on a typed state, every input of 0..=6 bytes, every output space and flush mode, decoded by a stored-block reference parser back to the input; (b) level 1 end to end: deflate() with deflate_quick on every input of concrete length 1 and 3, decoded by a fixed-Huffman reference decoder back to the input; (c) every static symbol the encoder can emit is the RFC code (KD1/KD2) and every fixed-table entry the decoder uses is the RFC code (KI5d), so encoder and decoder agree symbol by symbol; (d) the real decoder decodes stored blocks and fixed symbols exactly (KI5c/KI5d); (e) reset leaves no state behind (KD10); (f) dynamic-tree kernels at reduced alphabets (KD4/KD5, see C05); (g) the window slide: positions move with the data, the deferred lazy match still denotes equal bytes or is dropped (inductive step over deflate_slow's loop-head invariant, 1 KiB symbolic window), hash chains slide to the same positions or NIL; (h) deflate_medium's boundary shuffle between two adjacent matches (fizzle_matches, one call from any pair satisfying the call-site facts): the pair still tiles the same bytes, the moved match is still a real match at the same distance and never longer than 258; (i) the end-of-input tail of deflate_fast/medium/slow/huff/rle hands every tallied symbol, the deferred literal included, to a block (final on Finish) before reporting done.",
-      'Outside the claim: the match finders and the fast/medium/slow strategies themselves (only the slide they rely on), full-size dynamic trees, inputs long enough to need more than one slide, multi-call schedules beyond the bounds, deflateParams mid-stream, windowBits/memLevel sweeps. A change confined to the match loops of fast/medium/slow/longest_match is not detectable by this check (seed C10c is such a change).')
+      "Compositional, bounded: (a) level 0 end to end: one deflate_stored call on a typed state, every input of 0..=6 bytes, every output space and flush mode, decoded by a stored-block reference parser back to the input; (b) level 1 end to end: deflate() with deflate_quick on every input of concrete length 1 and 3, decoded by a fixed-Huffman reference decoder back to the input; (c) every static symbol the encoder can emit is the RFC code (KD1/KD2) and every fixed-table entry the decoder uses is the RFC code (KI5d), so encoder and decoder agree symbol by symbol; (d) the real decoder decodes stored blocks and fixed symbols exactly (KI5c/KI5d); (e) reset leaves no state behind (KD10); (f) dynamic-tree kernels at reduced alphabets (KD4/KD5, see C05); (g) the window slide: positions move with the data, the deferred lazy match still denotes equal bytes or is dropped (inductive step over deflate_slow's loop-head invariant, 1 KiB symbolic window), hash chains slide to the same positions or NIL.",
+      'Outside the claim: the match finders and the fast/medium/slow strategies themselves (only the slide they rely on), full-size dynamic trees, inputs long enough to need more than one slide, multi-call schedules beyond the bounds, deflateParams mid-stream, windowBits/memLevel sweeps. A change confined to fast/medium/slow/longest_match is not detectable by this check (seed C10c is such a change).')
 claim("C02",
       "Bounded model checking of every decoder kernel with CBMC's pointer, bounds, overflow, unwrap and assertion checks plus canaries "
       "around every caller buffer, unwinding assertions as the termination argument: bit reader (any split, refill precondition), writer "
@@ -68,8 +68,8 @@ claim("C10",
       "relaxed-atomic feature cache, anything about threads (Kani does not model concurrency), buffer address/alignment effects beyond the "
       "symbolic offsets inside the harness arrays.")
 claim("C11",
-      'Bounded: after Partial/Sync/Full/Block flush with room, deflate() appends the RFC marker (empty static block / byte-aligned 00 00 FF FF), Full flush clears the hash head and resets positions, duplicate flushes are refused without output; a flush starved of output inside the compress function is completed (marker included) by the next call with the same flush value, whatever flush preceded it; level 0: everything consumed is decodable from the output after a flush; level 1: the open block is closed, the prefix decodes to all input, marker follows, register byte aligned; levels >= 2, huff and rle: on a flush with all input consumed the block function leaves no tallied symbol and no deferred literal outside a block (the block writer replaced by a model that takes everything it is given).',
-      "Outside: the match loops of fast/medium/slow (levels >= 2) and the real block writer under them: that a tallied symbol reaches the output is composed from KD4/KD5/KD1, not decided end to end.")
+      'Bounded: after Partial/Sync/Full/Block flush with room, deflate() appends the RFC marker (empty static block / byte-aligned 00 00 FF FF), Full flush clears the hash head and resets positions, duplicate flushes are refused without output; a flush starved of output inside the compress function is completed (marker included) by the next call with the same flush value, whatever flush preceded it; level 0: everything consumed is decodable from the output after a flush; level 1: the open block is closed, the prefix decodes to all input, marker follows, register byte aligned.',
+      "Outside: deflate_slow's deferred literal and deflate_medium (levels >= 3): only their contract with deflate() is assumed.")
 claim("C13",
       "Bounded, protocol only: zlib header announces FDICT + DICTID = stream.adler (big endian) for every level/strategy; the decoder goes "
       "Head -> DictId -> Dict and reports NeedDict with the big-endian identifier; inflateSetDictionary accepts exactly a dictionary whose "
